@@ -101,6 +101,13 @@ func headerItem(h *types.Header) refrlp.Item {
 		refrlp.U(h.GasLimit), refrlp.U(h.GasUsed), refrlp.Big(h.Time), refrlp.B(h.Extra), refrlp.B(h.MixDigest[:]), refrlp.B(h.Nonce[:]))
 }
 
+// isCanonical: b is the block the canonical chain holds at its height (a side
+// branch may reach above the canonical head, where no height maps to anything).
+func isCanonical(bc *core.BlockChain, b *types.Block) bool {
+	c := bc.GetBlockByNumber(b.NumberU64())
+	return c != nil && c.Hash() == b.Hash()
+}
+
 // checkCommitments recomputes every commitment of an accepted block from its
 // body, the receipts the node stored and the state at its root.
 func checkCommitments(t *rapid.T, n *gen.Node, nd *gen.TNode, what string) {
@@ -125,7 +132,7 @@ func checkCommitments(t *rapid.T, n *gen.Node, nd *gen.TNode, what string) {
 		t.Fatalf("%s: block #%d accepted with uncle hash %x, the reference hash of its %d uncles is %x", what, nd.Index, h.UncleHash, len(uncles), got)
 	}
 	receipts := bc.GetReceiptsByHash(b.Hash())
-	if len(receipts) == 0 && len(b.Transactions()) > 0 && n.Cache != nil && !n.Cache.Disabled && !bc.HasState(b.Root()) && bc.GetBlockByNumber(b.NumberU64()).Hash() != b.Hash() {
+	if len(receipts) == 0 && len(b.Transactions()) > 0 && n.Cache != nil && !n.Cache.Disabled && !bc.HasState(b.Root()) && !isCanonical(bc, b) {
 		// a pruning node stores a side block whose parent state is gone without executing it
 		// (it is executed if its branch ever becomes the heaviest): nothing was processed yet
 		ev.Label("side-block-stored-unexecuted")
